@@ -189,9 +189,40 @@ class Evaluator:
 
     def _emit(self, st: _State, kind: str, node: ast.AST, **data: Any) -> Event:
         ev = Event(kind, node, self._cur_func, data, self._depth, self._ctx)
-        if st.raised is None:  # nothing happens after an inlined callee raised
+        sink = getattr(self, "_deferred_sink", None)
+        if sink is not None:
+            sink.append(ev)  # inside a lambda that is stored, not applied: nothing happens here
+        elif st.raised is None:  # nothing happens after an inlined callee raised
             st.events.append(ev)
         return ev
+
+    _IMMEDIATE_CONSUMERS = {"filter", "map", "sorted", "min", "max", "any", "all", "sum", "next", "list", "tuple", "set", "reduce", "sort", "groupby", "defaultdict"}
+
+    def _lambda_is_deferred(self, e: ast.Lambda) -> bool:
+        """a lambda handed to filter/map/sorted/key= is applied by that call; one that is assigned,
+        stored in a container or returned runs later (if at all) and sees its free variables as
+        they are then"""
+        root = self._cur_func.node if self._cur_func is not None else None
+        if root is None:
+            return False
+        pm = self._parent_maps.get(id(root)) if hasattr(self, "_parent_maps") else None
+        if pm is None:
+            if not hasattr(self, "_parent_maps"):
+                self._parent_maps = {}
+            pm = {}
+            for n in ast.walk(root):
+                for ch in ast.iter_child_nodes(n):
+                    pm[id(ch)] = n
+            self._parent_maps[id(root)] = pm
+        par = pm.get(id(e))
+        if isinstance(par, ast.keyword):
+            par = pm.get(id(par))
+        if isinstance(par, ast.Call) and par.func is not e:
+            fn = par.func.attr if isinstance(par.func, ast.Attribute) else (par.func.id if isinstance(par.func, ast.Name) else "")
+            return fn not in self._IMMEDIATE_CONSUMERS
+        if isinstance(par, ast.Call) and par.func is e:
+            return False  # (lambda ...)(...) applied in place
+        return True
 
     def _site(self, call: ast.Call) -> CallSite:
         s = self._site_cache.get(id(call))
@@ -1057,12 +1088,21 @@ class Evaluator:
         saved_ctx = self._ctx
         self._ctx = self._ctx + ("lambda",)
         self._push_tenv(LambdaEnv(self._tenv(), e, self.cg._lambda_arg_types.get(id(e), [])))
+        deferred = getattr(self, "_deferred_sink", None) is None and self._lambda_is_deferred(e)
+        if deferred:
+            self._deferred_sink = []
         try:
             body = self._eval_quiet(st, e.body)
         finally:
             self._pop_tenv()
             self._ctx = saved_ctx
             st.env = saved_env
+            if deferred:
+                sink, self._deferred_sink = self._deferred_sink, None
+        if deferred and sink:
+            bound = set(params) | {a.arg for a in e.args.kwonlyargs}
+            free = sorted({n.id for n in ast.walk(e.body) if isinstance(n, ast.Name) and isinstance(n.ctx, ast.Load) and n.id not in bound})
+            self._emit(st, "note", e, what="deferred", events=sink, free=free)
         return ("lambda", params, body)
 
     def _eval_comp(self, st: _State, e: ast.AST) -> Term:
